@@ -1,0 +1,97 @@
+//go:build verif
+
+// Contracts for package mapr (comment-only; read by /verif/govc).
+
+package mapr
+
+// ---- data structures ---------------------------------------------------------
+//@ type AggregateSet invariant [maps-made] self.FValues != nil && self.SValues != nil
+//@ type GroupSet invariant [sets-made] self.sets != nil && allNonNil(self.sets)
+
+//@ func NewAggregateSet
+//@   ensures [nonnil] result != nil
+//@ func NewGroupSet
+//@   ensures [nonnil] result != nil
+//@ func (*GroupSet).InitSet
+//@   constructor
+//@   assigns g.sets
+//@ func (*GroupSet).GetSet
+//@   assigns *g.sets
+//@   ensures [nonnil] result != nil
+//@ func (*AggregateSet).addFloat
+//@   assigns *s.FValues
+//@ func (*AggregateSet).addFloatMin
+//@   assigns *s.FValues
+//@ func (*AggregateSet).addFloatMax
+//@   assigns *s.FValues
+//@ func (*AggregateSet).setFloat
+//@   assigns *s.FValues
+//@ func (*AggregateSet).setString
+//@   assigns *s.SValues
+//@ func (*AggregateSet).Aggregate
+//@   assigns *s.FValues, *s.SValues
+//@ func (*AggregateSet).Serialize
+//@   assigns *ch
+//@ func (*GroupSet).Serialize
+//@   assigns *ch
+
+// ---- tokens --------------------------------------------------------------------
+//@ func tokensConsume
+//@   assigns nothing
+//@   ensures [rest-is-suffix] len(result0) <= len(tokens)
+//@ func tokensConsumeStr
+//@   assigns nothing
+//@   ensures [rest-is-suffix] len(result0) <= len(tokens)
+//@ func tokensConsumeOptional
+//@   assigns nothing
+//@   ensures [rest-is-suffix] len(result) <= len(tokens) && len(result) + 1 >= len(tokens)
+//@   ensures [nil-kept] implies(len(tokens) >= 1, !isnil(result) || isnil(tokens))
+//@ func (token).isKeyword
+//@   assigns nothing
+
+// ---- clause builders -------------------------------------------------------------
+//@ func makeSelectConditions
+//@   assigns nothing
+//@ func makeSelectConditions$1
+//@   assigns nothing
+//@ func makeWhereConditions
+//@   assigns nothing
+//@ func makeWhereConditions$1
+//@   assigns nothing
+//@ func (*whereCondition).fill
+//@   requires [three-tokens] len(tokens) >= 3
+//@   assigns *wc
+//@   ensures [rest] implies(isnil(result1), len(result0) == len(tokens) - 3)
+//@ func makeSetConditions
+//@   assigns nothing
+//@ func makeSetConditions$1
+//@   assigns nothing
+//@ func initSetConditions
+//@   requires [sc] sc != nil
+//@   assigns *sc
+//@   ensures [three-tokens] implies(isnil(result), len(tokens) >= 3)
+
+// ---- query -------------------------------------------------------------------------
+//@ func NewQuery
+//@   ensures [nonnil-unless-empty] implies(isnil(result1) && queryStr != "", result0 != nil)
+//@ func (*Query).parse
+//@   assigns *q
+//@ func (*Query).parseTokens
+//@   assigns *q
+//@ func (*Query).WhereClause
+//@   assigns nothing
+//@ func (*Query).SetClause
+//@   requires [fields] fields != nil
+//@   assigns *fields
+//@ func whereClauseFloatValues
+//@   assigns nothing
+//@ func whereClauseFloatValue
+//@   assigns nothing
+//@ func whereClauseStringValues
+//@   assigns nothing
+//@ func whereClauseStringValue
+//@   assigns nothing
+//@ func (*whereCondition).floatClause
+//@   assigns nothing
+//@ func (*whereCondition).stringClause
+//@   assigns nothing
